@@ -4,6 +4,7 @@ import (
 	"fmt"
 	"go/ast"
 	"go/constant"
+	"go/token"
 	"go/types"
 	"sort"
 	"strings"
@@ -124,12 +125,43 @@ func (e *Enum) setIsIota() {
 
 // fetchConstComment retrieve the comment, not exposed in go/types
 func fetchConstComment(pa *packages.Package, obj *types.Const) string {
-	node := nodeAt(pa, obj.Pos())
-	spec := node.(*ast.ValueSpec)
+	spec := valueSpecAt(pa, obj.Pos())
+	if spec == nil {
+		panic("constant declaration not found in Package.Syntax " + pa.String())
+	}
 	if spec.Comment == nil {
 		return ""
 	}
 	return strings.TrimSpace(spec.Comment.Text())
+}
+
+// valueSpecAt returns the top level constant specification declaring the name at [pos],
+// which is not always the first one, as in 'const A, B T = 1, 2'
+func valueSpecAt(pa *packages.Package, pos token.Pos) *ast.ValueSpec {
+	declFile := pa.Fset.File(pos)
+	for _, file := range pa.Syntax {
+		if pa.Fset.File(file.Pos()) != declFile {
+			continue
+		}
+		for _, decl := range file.Decls {
+			genDecl, ok := decl.(*ast.GenDecl)
+			if !ok || genDecl.Tok != token.CONST {
+				continue
+			}
+			for _, spec := range genDecl.Specs {
+				valueSpec, ok := spec.(*ast.ValueSpec)
+				if !ok {
+					continue
+				}
+				for _, name := range valueSpec.Names {
+					if name.Pos() == pos {
+						return valueSpec
+					}
+				}
+			}
+		}
+	}
+	return nil
 }
 
 // fetchPkgEnums walks through all the constants defined by the given package
